@@ -98,3 +98,66 @@ func (p *Pair) SpawnedCallee() {
 	defer p.first.RUnlock()
 	go p.readFirst()
 }
+
+// --- guarded-by discipline ---
+
+type Table struct {
+	mu    sync.RWMutex
+	slots []int
+	n     int
+}
+
+// WriteUnderWriteLock: fine.
+func (t *Table) WriteUnderWriteLock(v int) {
+	t.mu.Lock()
+	defer t.mu.Unlock()
+	t.n = v
+	t.slots = append(t.slots, v)
+}
+
+// WriteUnderReadLock writes the guarded field with only the read side held.
+func (t *Table) WriteUnderReadLock(v int) {
+	t.mu.RLock()
+	defer t.mu.RUnlock()
+	t.n = v
+}
+
+// CompactUnderReadLock rewrites the guarded slice in place through a local reslice.
+func (t *Table) CompactUnderReadLock() {
+	t.mu.RLock()
+	defer t.mu.RUnlock()
+	kept := t.slots[:0]
+	for _, s := range t.slots {
+		if s != 0 {
+			kept = append(kept, s)
+		}
+	}
+	_ = kept
+}
+
+// ElementWriteAfterUnlock writes an element after the lock was released.
+func (t *Table) ElementWriteAfterUnlock(i int) {
+	t.mu.Lock()
+	ok := i >= 0 && i < len(t.slots)
+	t.mu.Unlock()
+	if ok {
+		t.slots[i] = 0
+	}
+}
+
+// setLocked expects its caller to hold mu for writing.
+func (t *Table) setLocked(v int) { t.n = v }
+
+// CallsHelperWithLock: fine.
+func (t *Table) CallsHelperWithLock(v int) {
+	t.mu.Lock()
+	t.setLocked(v)
+	t.mu.Unlock()
+}
+
+// CallsHelperWithoutLock calls the helper with only the read side held.
+func (t *Table) CallsHelperWithoutLock(v int) {
+	t.mu.RLock()
+	t.setLocked(v)
+	t.mu.RUnlock()
+}
